@@ -5,6 +5,7 @@ A scenario is a list of run specifications; every run has its own benchmark name
 name.  The order in which the scheduler sees the runs (iteration order of the executor's run set) numbers the
 runs of the model's world."""
 import threading
+import time
 
 import core
 from core import coq_Z, coq_bool, coq_list, coq_nat
@@ -125,7 +126,7 @@ class Obs:
 
 
 def run_impl(specs, data_file, scheduler="batch", argv=(), failing_builds=(), seed=None, interrupt_at=None,
-             build_oserror=(), run_filter=None, config_dir=None):
+             build_oserror=(), run_filter=None, config_dir=None, slow_builds=0.0, builds_not_repeatable=False):
     """one real session; returns what was observed"""
     by_name = {s.name: s for s in specs}
     obs = Obs()
@@ -156,7 +157,12 @@ def run_impl(specs, data_file, scheduler="batch", argv=(), failing_builds=(), se
             raise OSError(2, "No such file or directory", cwd)
         ok = (text, cwd) not in failing_builds and text not in failing_builds
         with lock:
+            # a build that cannot be repeated on top of itself (mkdir obj && make): a second execution fails
+            if builds_not_repeatable and any(e[0] == "build" and e[1] == (text, cwd) for e in obs.events):
+                ok = False
             obs.events.append(("build", (text, cwd), ok))
+        if slow_builds:
+            time.sleep(slow_builds)      # long enough for the other worker threads to reach their build check
         return (0 if ok else 1), "", ""
 
     def pre_call(args, env, cwd=None, timeout=None):
